@@ -25,7 +25,8 @@ RULE = ("histories over 24 event symbols x 1..3 connections (conn 0 optionally o
         "good/defective replies, DWR/DPR, clock advances; all sequences to depth 3 on a ready connection "
         "are enumerated, deeper ones (to 14) drawn by Hypothesis. Non-trivial: the history contains a "
         "defective answer or a request that takes an error path; distinct by script.")
-ASSUME = ["hop-by-hop ids are unique per connection among requests in flight (the generator numbers them)",
+ASSUME = ["identifier values 0 and 2^32-1 are valid and are used (each special key once per connection)",
+          "hop-by-hop ids are unique per connection among requests in flight (the generator numbers them)",
           "an answer matches a request by (command code, application id, hop-by-hop, end-to-end) on the same connection",
           "frames count as received once fed completely; evaluation at quiescent points"]
 
@@ -71,14 +72,29 @@ def evaluate(case) -> Result:
         hs = [False] * nconn
         last_req = {}
         pending_node_req = {}
+        used_special = set()
         for ev in case["events"]:
-            ci, s = ev
+            ci, s = ev[0], ev[1]
+            idmode = ev[2] if len(ev) > 2 else None
             if ci >= nconn or conns[ci] is None:
                 continue
             c = conns[ci]
             host = f"peer{ci + 1}.example"
             i = nid()
             base = {"hbh": i, "e2e": i, "host": host}
+            if idmode and (ci, s, idmode) not in used_special and s not in ("HS", "NODE_REQ", "NODE_REQ_ANS", "REQ_T"):
+                # boundary identifiers (0 and 2^32-1 are valid values); each special key once per connection
+                used_special.add((ci, s, idmode))
+                if idmode == "zero-hbh":
+                    base["hbh"] = 0
+                elif idmode == "zero-e2e":
+                    base["e2e"] = 0
+                elif idmode == "both-zero" and (ci, "bz") not in used_special:
+                    used_special.add((ci, "bz"))
+                    base["hbh"] = base["e2e"] = 0
+                elif idmode == "max":
+                    base["hbh"] = 0xffffffff
+                res.classes.append(f"ids:{idmode}")
             if s == "HS":
                 if hs[ci]:
                     continue
@@ -161,8 +177,8 @@ def evaluate(case) -> Result:
         res.nontrivial = defect
         res.classes += [f"nconn:{nconn}", f"app:{case.get('app_kind', 'basic')}", f"out0:{bool(case.get('out0'))}",
                         "defective" if defect else "clean"]
-        for ci, s in case["events"]:
-            res.classes.append(f"sym:{s}")
+        for e_ in case["events"]:
+            res.classes.append(f"sym:{e_[1]}")
         res.sample = {"case": case, "transcript": w.summary()}
         return res
     finally:
@@ -180,6 +196,9 @@ def shard_main(shard, nshards, tier, scale):
         for d in range(1, depth + 1):
             for seq in itertools.product(core, repeat=d):
                 jobs.append({"nconn": 1, "out0": out0, "events": [[0, "HS"]] + [[0, s] for s in seq]})
+                if d == 1:
+                    for m in ("zero-hbh", "zero-e2e", "both-zero", "max"):
+                        jobs.append({"nconn": 1, "out0": out0, "events": [[0, "HS"], [0, seq[0], m]]})
                 if d <= 2:      # also before the handshake
                     jobs.append({"nconn": 1, "out0": out0, "events": [[0, s] for s in seq] + [[0, "HS"], [0, "REQ"]]})
     if shard == 0:
@@ -193,10 +212,12 @@ def shard_main(shard, nshards, tier, scale):
     @st.composite
     def cases(draw):
         nconn = draw(st.integers(1, 3))
-        ev = draw(st.lists(st.tuples(st.integers(0, nconn - 1), st.sampled_from(SYMS)), min_size=1, max_size=14))
+        ev = draw(st.lists(st.tuples(st.integers(0, nconn - 1), st.sampled_from(SYMS),
+                                     st.sampled_from([None, None, None, "zero-hbh", "zero-e2e", "both-zero", "max"])),
+                           min_size=1, max_size=14))
         return {"nconn": nconn, "out0": draw(st.booleans()), "app_kind": draw(st.sampled_from(["basic", "threading"])),
                 "seed": draw(st.integers(0, 7)), "yield_all": draw(st.booleans()),
-                "events": [[c, s] for c, s in ev]}
+                "events": [[c, s, m] for c, s, m in ev]}
 
     def body(case):
         res = evaluate(case)
@@ -211,7 +232,7 @@ def run(tier, scale=1.0):
     rec = Recorder(PID)
     for d in hyp.pool_run(shard_main, (tier, scale)):
         rec.merge(d)
-    required = {f"sym:{s}": 1 for s in SYMS} | {"nconn:3": 1, "app:threading": 1, "out0:True": 1, "defective": 1}
+    required = {f"sym:{s}": 1 for s in SYMS} | {"ids:zero-hbh": 1, "ids:zero-e2e": 1, "ids:both-zero": 1, "nconn:3": 1, "app:threading": 1, "out0:True": 1, "defective": 1}
     return finish(rec, tier=tier, level="exploration", rule=RULE, assumptions=ASSUME, t0=t0,
                   required_classes=required)
 
